@@ -18,7 +18,7 @@ def run(ctx):
     ctx.cov["checker_cmd"] = ("coqc -Q coq/Store BWStore coq/Store/Props/C09.v; work/bin/h_store -mode hist -c09 | "
                               "coqc work/C09/cases_*.v (digests of query x options products per state, vm_compute)")
     n = 60 if ctx.quick() else 1200
-    hargs = ["-maxops", 30, "-usize", 24, "-bigmax", 1100 if ctx.quick() else 5000]
+    hargs = ["-maxops", 30, "-usize", 24, "-bigmax", 1100 if ctx.quick() else 5000, "-longchurn", 0 if ctx.quick() else 110]
     if ctx.replay and sc.replay(ctx, ["-c09"], hargs, (False, False, True)):
         return
     hists = sc.hstore(["-mode", "hist", "-n", n, "-seed", ctx.seed, "-c09"] + hargs)
